@@ -815,7 +815,7 @@ func main() {
 	l := newLoader()
 	what := flag.Args()
 	if len(what) == 0 {
-		what = []string{"map", "color", "romwin", "cputables", "asm", "header", "globals", "cpudiff"}
+		what = []string{"map", "color", "romwin", "cputables", "asm", "header", "globals", "cpudiff", "cpugo"}
 	}
 	for _, w := range what {
 		switch w {
@@ -835,6 +835,8 @@ func main() {
 			genGlobals(l)
 		case "cpudiff":
 			genCpuDiff(l)
+		case "cpugo":
+			genCpuGo(l)
 		default:
 			die("unknown generator %q", w)
 		}
